@@ -7,8 +7,8 @@ import (
 
 	"github.com/ovh/kmip-go"
 	"verifharness/msg"
-	"verifharness/refttlv"
 	"verifharness/reftext"
+	"verifharness/refttlv"
 )
 
 // tnode is a text-level view of a TTLV item whose XML / JSON rendering can be deviated per node.
